@@ -4,8 +4,11 @@ Real side: a small distance-independent package (convolved/*.fits written by the
 with 1–4 numeric columns in an arbitrary row order, names optionally blank-padded); fit results either from
 `Fitter.fit` or built directly (`FitInfo` with meta pointing at the package); then `write_parameters`,
 `write_parameter_ranges`, `extract_parameters` and `FitInfo.filter_table` (on the stripped + name-sorted table, as
-the parameter plots call it) for one selector, with the results given as a file / a single FitInfo / a list.
-The text outputs are parsed back and every printed row is looked up *by model name* in the original table.
+the parameter plots call it), with the results given as a file / a single FitInfo / a list.  A case is a call
+*history*: 1-3 successive rounds of the four consumers on the SAME input (the same file, the same object, the same
+list) with different selectors (narrow then wide, wide then narrow, repeated).  The text outputs of EVERY round are
+parsed back and every printed row is looked up *by model name* in the original table; the expected selection of
+every round is computed from a snapshot of the ORIGINAL fit results taken before the first call.
 
 Model side: driver `filtertable` (= `prepTable` + `filterTableAdd`) predicts, for the selected fit names, which
 row of the parameter file is shown in each line and which additional values are attached; `ranges`
@@ -27,7 +30,8 @@ PID = 'C09'
 RULE = ('cases = (model names, row order of the convolved files, row order and blank padding of parameters.fits, 1-4 '
         'numeric columns, optional additional dictionaries, 1-3 fit results from Fitter.fit or built directly, a '
         'selector of every form with a threshold placed between attained values so that 0..all fits are selected, '
-        'input form file / single / list) drawn from the quantifier of C09; non-trivial = at least 2 models and at '
+        'input form file / single / list, 0-2 further rounds on the same input with other selectors) drawn from the '
+        'quantifier of C09; non-trivial = at least 2 models and at '
         'least 1 selected fit whose table row is not at the same position as its rank; distinct = distinct '
         'canonical hash of the generated inputs')
 REQUIRED_BRANCHES = ['write_parameters', 'write_parameter_ranges', 'extract_parameters', 'filter_table',
@@ -36,7 +40,9 @@ REQUIRED_BRANCHES = ['write_parameters', 'write_parameter_ranges', 'extract_para
                      'selected_0', 'selected_some', 'selected_all',
                      'additional_0', 'additional_1', 'additional_2', 'padded_table_names', 'table_not_sorted',
                      'cols_1', 'cols_4', 'fits_from_fitter', 'fits_direct', 'extract_all', 'extract_subset',
-                     'models_1', 'models_8']
+                     'models_1', 'models_8',
+                     'history_1', 'history_2', 'history_3', 'narrow_then_wide_single', 'narrow_then_wide_list',
+                     'narrow_then_wide_file', 'wide_then_narrow', 'repeated_selector']
 ASSUMPTIONS = ['text outputs are compared at the precision they are printed with (%10.3e / %10.3f / %11.3e): the '
                'expected number is formatted the same way and the strings must be equal',
                'selector thresholds are placed between attained values (C05 owns the selection rule itself)',
@@ -122,6 +128,29 @@ def gen_case(rng, directed=None, table_perm=None, n=None):
     target = directed.get('target', rng.choice([0, n, rng.randint(0, n), rng.randint(0, n)]))
     if kind == 'N' and 'target' not in directed and rng.random() < 0.2:
         target = n + rng.randint(1, 3)
+    # further rounds on the same input: [kind, target] each
+    if 'more' in directed:
+        more = [list(m) for m in directed['more']]
+    elif 'sel' in directed or rng.random() < 0.45:
+        more = []
+    else:
+        pat = rng.choice(['nw', 'nw', 'wn', 'rep', 'rand'])
+        k2 = rng.choice(['A', 'N', 'C', 'D', 'E', 'F'])
+        if pat == 'nw':
+            kind = rng.choice(['N', 'C', 'D', 'E', 'F'])
+            target = rng.randint(0, max(0, n - 1))
+            more = [[k2, n if k2 == 'A' else rng.randint(min(n, target + 1), n)]]
+        elif pat == 'wn':
+            k2 = rng.choice(['N', 'C', 'D', 'E', 'F'])
+            target = n if kind == 'A' else rng.randint(min(1, n), n)
+            more = [[k2, rng.randint(0, max(0, min(target, n) - 1))]]
+        elif pat == 'rep':
+            more = [[kind, target]]
+        else:
+            more = [[k2, rng.randint(0, n)]]
+        if rng.random() < 0.35:
+            k3 = rng.choice(['A', 'N', 'C', 'D', 'E', 'F'])
+            more.append([k3, rng.randint(0, n)])
     if 'extract' in directed:
         ex = directed['extract']
     elif rng.random() < 0.5:
@@ -131,7 +160,7 @@ def gen_case(rng, directed=None, table_perm=None, n=None):
         rng.shuffle(pool)
         ex = pool[:rng.randint(1, len(pool))]
     return dict(names=names, conv=conv, table=table_names, cols=cols, additional=additional, wavs=wavs, models=models,
-                mode=mode, form=form, sources=sources, sel=kind, target=target, extract=ex,
+                mode=mode, form=form, sources=sources, sel=kind, target=target, more=more, extract=ex,
                 header=rng.random() < 0.7, suffix=rng.choice([None, '.txt']), as_tuple=rng.random() < 0.3)
 
 
@@ -145,6 +174,16 @@ DIRECTED = [
     dict(n=4, ncols=2, nadd=1, mode='fitter', form='file', sel='N', target=0, pad=True),
     dict(n=7, ncols=3, nadd=0, mode='direct', form='single', sel='C', target=0, pad=True),
 ]
+# call histories on the same input: narrow -> wide, wide -> narrow, repeated, three rounds; every input form
+for _form in ('single', 'list', 'file'):
+    DIRECTED += [
+        dict(n=6, form=_form, mode='direct', sel='N', target=1, more=[['A', 6]], nadd=1),
+        dict(n=5, form=_form, mode='fitter', sel='C', target=2, more=[['N', 4]], ncols=2),
+        dict(n=4, form=_form, mode='direct', sel='F', target=0, more=[['D', 3]]),
+        dict(n=6, form=_form, mode='fitter', sel='A', target=6, more=[['N', 2]], nadd=2),
+        dict(n=5, form=_form, mode='direct', sel='E', target=3, more=[['E', 3]]),
+        dict(n=7, form=_form, mode='direct', sel='N', target=2, more=[['C', 5], ['N', 1]], nadd=1),
+    ]
 
 
 def gen_cases(seed, tier):
@@ -217,9 +256,14 @@ def measure(kind, chi2, n_data):
     return (c - c[0]) / n_data
 
 
-def make_selector(case, ranked):
+def rounds(case):
+    return [[case['sel'], case['target']]] + [list(m) for m in case.get('more', [])]
+
+
+def make_selector(case, ranked, kind=None, tgt=None):
     """selector tuple; thresholds lie between attained values of the first source"""
-    kind, tgt = case['sel'], case['target']
+    if kind is None:
+        kind, tgt = case['sel'], case['target']
     n = len(case['names'])
     if kind == 'A':
         return ('A', 0)
@@ -261,7 +305,9 @@ def ranked_view(infos):
     for info in infos:
         a = pk.fit_arrays(info)
         flags = [int(v) for v in info.source.valid]
-        out.append(dict(name=info.source.name, names=a['name'], chi2=a['chi2'], av=a['av'], sc=a['sc'], flags=flags,
+        # a snapshot: plain copies, so that nothing the consumers do to the objects can reach it
+        out.append(dict(name=str(info.source.name), names=list(a['name']), chi2=np.array(a['chi2'], dtype=float),
+                        av=np.array(a['av'], dtype=float), sc=np.array(a['sc'], dtype=float), flags=flags,
                         n_data=sum(1 for f in flags if f in (1, 4))))
     return out
 
@@ -305,24 +351,30 @@ def parse_ranges(path):
     return groups, out
 
 
-def call_all(case, d, md, infos, sel):
-    """run the four consumers; returns dict of raw outputs"""
+def make_input(case, d, infos):
+    """the one input every call of the history receives: a file, the result object, or the list / tuple"""
+    from sedfitter.fit_info import FitInfoFile
+    if case['form'] == 'file':
+        path = os.path.join(d, 'fits.bin')
+        f = FitInfoFile(path, 'w')
+        for info in infos:
+            f.write(info)
+        f.close()
+        return path
+    if case['form'] == 'single':
+        return infos[0]
+    return tuple(infos) if case['as_tuple'] else list(infos)
+
+
+def call_all(case, d, md, src, names_of_sources, sel):
+    """one round: the four consumers on the same input `src`; returns dict of raw outputs"""
     from sedfitter import write_parameters, write_parameter_ranges, extract_parameters
     from sedfitter.fit_info import FitInfoFile
     from sedfitter.models import load_parameter_table
     add = case['additional']
 
     def source():
-        if case['form'] == 'file':
-            path = os.path.join(d, 'fits_%d.bin' % len(os.listdir(d)))
-            f = FitInfoFile(path, 'w')
-            for info in infos:
-                f.write(info)
-            f.close()
-            return path
-        if case['form'] == 'single':
-            return infos[0]
-        return tuple(infos) if case['as_tuple'] else list(infos)
+        return src
 
     out = {}
     with common.quiet():
@@ -347,9 +399,9 @@ def call_all(case, d, md, infos, sel):
             kw['parameters'] = list(case['extract'])
         extract_parameters(**kw)
         out['ex'] = {}
-        for info in infos:
-            p = xd + '/x_' + info.source.name + (case['suffix'] or '')
-            out['ex'][info.source.name] = [ln.split() for ln in open(p).read().split('\n') if ln.strip()]
+        for sname in names_of_sources:
+            p = xd + '/x_' + sname + (case['suffix'] or '')
+            out['ex'][sname] = [ln.split() for ln in open(p).read().split('\n') if ln.strip()]
         # the table handed to the parameter plots: stripped, sorted by name, then FitInfo.filter_table
         t = load_parameter_table(md)
         t['MODEL_NAME'] = np.char.strip(t['MODEL_NAME'])
@@ -370,7 +422,7 @@ def impl_side(case, d):
     cols = list(case['cols'])
     add = case['additional']
     addk = list(add)
-    br = {'input_' + case['form'], 'sel_' + case['sel'], 'additional_%d' % len(addk),
+    br = {'input_' + case['form'], 'additional_%d' % len(addk),
           'fits_from_fitter' if case['mode'] == 'fitter' else 'fits_direct',
           'extract_all' if case['extract'] == 'all' else 'extract_subset'}
     if len(cols) in (1, 4):
@@ -382,18 +434,54 @@ def impl_side(case, d):
     if [t.strip() for t in case['table']] != sorted(names):
         br.add('table_not_sorted')
     md, infos = build(case, d)
-    ranked = ranked_view(infos)
-    sel = make_selector(case, ranked)
+    ranked = ranked_view(infos)          # the ORIGINAL results, before any consumer has seen them
+    src = make_input(case, d, infos)
+    steps = []
     relaxed = 0
     fails = []
-    try:
-        out = call_all(case, d, md, infos, sel)
-    except Exception as ex:
-        import traceback
-        return (['post-processing raised %s: %s (selector %r, form %s)\n%s'
-                 % (type(ex).__name__, ex, sel, case['form'], traceback.format_exc()[-1200:])],
-                dict(sel=sel, ranked=ranked), br, 0)
-    br |= {'write_parameters', 'write_parameter_ranges', 'extract_parameters', 'filter_table'}
+    rs = rounds(case)
+    br.add('history_%d' % len(rs))
+    for ri, (kind, tgt) in enumerate(rs):
+        sel = make_selector(case, ranked, kind, tgt)
+        br.add('sel_' + kind)
+        sd = os.path.join(d, 'round%d' % ri)
+        os.makedirs(sd)
+        try:
+            out = call_all(case, sd, md, src, [r['name'] for r in ranked], sel)
+        except Exception as ex:
+            import traceback
+            return (['round %d: post-processing raised %s: %s (selector %r, form %s)\n%s'
+                     % (ri + 1, type(ex).__name__, ex, sel, case['form'], traceback.format_exc()[-1200:])],
+                    dict(ranked=ranked, steps=steps), br, 0)
+        br |= {'write_parameters', 'write_parameter_ranges', 'extract_parameters', 'filter_table'}
+        f, ks, rel_ = check_round(case, ranked, sel, out, br)
+        relaxed += rel_
+        hist = ' -> '.join(repr(st['sel']) for st in steps) or None
+        fails += ['round %d of %d on the same %s (earlier selectors: %s): %s' % (ri + 1, len(rs), case['form'], hist, x)
+                  for x in f]
+        if ks is None:
+            return fails, dict(ranked=ranked, steps=steps), br, 0
+        if steps:
+            k0, k1 = steps[-1]['ks'][0], ks[0]
+            if k0 < k1:
+                br.add('narrow_then_wide_' + case['form'])
+            elif k0 > k1:
+                br.add('wide_then_narrow')
+            if list(steps[-1]['sel']) == list(sel):
+                br.add('repeated_selector')
+        steps.append(dict(sel=sel, ks=ks, out=out, ranked=ranked))
+    return fails, dict(ranked=ranked, steps=steps), br, relaxed
+
+
+def check_round(case, ranked, sel, out, br):
+    """the property on the outputs of one round, against the original results; returns (failures, ks, relaxed)"""
+    names = case['names']
+    n = len(names)
+    cols = list(case['cols'])
+    add = case['additional']
+    addk = list(add)
+    relaxed = 0
+    fails = []
     table = {nme: [case['cols'][c][i] for c in cols] for i, nme in enumerate(names)}     # the original table, by name
     head, blocks = out['wp']
     want_head = ['fit_id', 'model_name', 'chi2', 'av', 'scale'] + [c.lower() for c in cols] + addk
@@ -404,7 +492,7 @@ def impl_side(case, d):
         fails.append('write_parameter_ranges: column groups %r, expected %r' % (groups, want_head[2:]))
     if len(blocks) != len(ranked) or len(rng_rows) != len(ranked) or len(out['ft']) != len(ranked):
         fails.append('number of sources listed: %d / %d / %d, expected %d' % (len(blocks), len(rng_rows), len(out['ft']), len(ranked)))
-        return fails, dict(sel=sel, ranked=ranked), br, 0
+        return fails, None, 0
     ks = []
     for si, r in enumerate(ranked):
         k, marg = expected_count(sel, r['chi2'], r['n_data'])
@@ -458,13 +546,25 @@ def impl_side(case, d):
             fails.append('filter_table source %r: columns %r names %r rows %r; expected %r %r %r'
                          % (r['name'], ft['cols'], ft['names'], ft['rows'], ['MODEL_NAME'] + cols + addk,
                             list(sel_names), exp_rows))
-    return fails, dict(sel=sel, ranked=ranked, ks=ks, out=out), br, relaxed
+    return fails, ks, relaxed
 
 
 # ----------------------------------------------------------------------------- model side
 
 def model_side(case, obs):
-    """for each source: (table positions, names, extras, ranges per printed group, n_data, n_fits)"""
+    """for each round, for each source: (table positions, names, extras, ranges per printed group, n_data, n_fits),
+    always from the original results"""
+    return [model_round(case, st) for st in obs['steps']]
+
+
+def compare_model(case, obs, mod):
+    dis = []
+    for ri, (st, m) in enumerate(zip(obs['steps'], mod)):
+        dis += ['round %d (selector %r): %s' % (ri + 1, st['sel'], x) for x in compare_round(case, st, m)]
+    return dis
+
+
+def model_round(case, obs):
     drv = common.driver()
     add = case['additional']
     addk = list(add)
@@ -504,7 +604,7 @@ def unsigned_zero(tok):
     return tok[1:] if tok.startswith('-') and float(tok) == 0. else tok
 
 
-def compare_model(case, obs, mod):
+def compare_round(case, obs, mod):
     dis = []
     head, blocks = obs['out']['wp']
     groups, rng_rows = obs['out']['wr']
@@ -532,9 +632,10 @@ def nontrivial(case, obs):
     if len(case['names']) < 2:
         return False
     tpos = {t.strip(): i for i, t in enumerate(case['table'])}
-    for r, k in zip(obs['ranked'], obs['ks']):
-        if any(tpos[nme] != i for i, nme in enumerate(r['names'][:k])):
-            return True
+    for st in obs['steps']:
+        for r, k in zip(obs['ranked'], st['ks']):
+            if any(tpos[nme] != i for i, nme in enumerate(r['names'][:k])):
+                return True
     return False
 
 
@@ -551,7 +652,8 @@ def run_case(case):
             return CaseResult(False, detail='\n'.join(dis[:5]), violates=None, branches=br, key=key)
         sample = dict(n_models=len(case['names']), table=case['table'], columns=list(case['cols']),
                       additional=list(case['additional']), form=case['form'], mode=case['mode'],
-                      selector=list(obs['sel']), selected=obs['ks'], fit_order=obs['ranked'][0]['names'])
+                      history=[dict(selector=list(st['sel']), selected=st['ks']) for st in obs['steps']],
+                      fit_order=obs['ranked'][0]['names'])
         return CaseResult(True, branches=br, key=key, nontrivial=nontrivial(case, obs), sample=sample, relaxed=relaxed)
     finally:
         shutil.rmtree(d, ignore_errors=True)
